@@ -13,7 +13,7 @@ theorem wakeGuard_notLooping (b c : Bool) : wakeGuard b c false := by unfold wak
 theorem runInline_loop : runInline true := by unfold runInline; simp
 theorem runInline_foreign : ¬ runInline false := by unfold runInline; simp
 theorem drainSwaps_tie : drainSwaps = true := rfl
-theorem finalDrain_tie : finalDrain = true := rfl
+theorem finalDrain_tie : finalDrain = .untilEmpty := rfl
 theorem callingResetAfterRun_tie : callingResetAfterRun = true := rfl
 /-- the parts of the code's shape that the model of the functor queue takes for granted (not parameters of `step`) -/
 theorem shape_tie : drainEachIteration = true ∧ loopingBracket = true ∧ callingSetBeforeSwap = true ∧
